@@ -713,6 +713,9 @@ class Body:
                                 e = peel(self.op_expr(a), calls=False)
                                 if e[0] not in ('local', 'aggr', 'call', 'phi', 'int', 'cyc'):
                                     res = 'ALL'
+                                else:
+                                    # the local itself may be rewritten: facts mentioning its value die
+                                    out.append((('expr', e), ()))
         if res is None:
             res = out
         self._cache[key] = res
@@ -846,12 +849,18 @@ class Body:
 
 def fact_killed(f, writes):
     """is fact f invalidated by the given writes ('ALL' or access paths)?"""
+    if writes != 'ALL':
+        for (wr, wch) in writes:
+            if wr[0] == 'expr' and contains(f[1], lambda y: y == wr[1]):
+                return True
     if not fact_reads_memory(f):
         return False
     if writes == 'ALL':
         return True
     for x in walk(f[1]):
         if x[0] in ('field', 'idx', 'deref', 'cidx', 'subslice'):
+            if not contains(x, lambda y: y[0] == 'deref'):
+                continue  # projection of a value (no pointer involved): not memory
             root, ch = field_chain(x)
             if root[0] != 'param':
                 return True  # memory reached through something we cannot name
@@ -864,7 +873,7 @@ def fact_killed(f, writes):
 
 
 def fact_reads_memory(f):
-    return contains(f[1], lambda x: x[0] in ('field', 'idx', 'deref', 'cidx', 'subslice'))
+    return contains(f[1], lambda x: x[0] == 'deref')
 
 
 def mk_deref(e):
